@@ -3,6 +3,7 @@ package tickers
 import (
 	"context"
 	"log"
+	"runtime/debug"
 	"time"
 
 	"github.com/smartcontractkit/chainlink-common/pkg/services"
@@ -71,6 +72,14 @@ func (t *timeTicker[T]) Start(ctx context.Context) error {
 			// so it is run in a separate goroutine to not block further ticks
 			// Exploratory: Add some control to limit the number of goroutines spawned
 			go func(c context.Context, t Tick[T], o observer[T], l *log.Logger) {
+				// this goroutine is not under the recoverer that wraps Start: a
+				// panic in a provider or post-processor call would end the process
+				defer func() {
+					if r := recover(); r != nil {
+						l.Printf("recovered from panic while processing tick: %v\n%s", r, debug.Stack())
+					}
+				}()
+
 				if err := o.Process(c, t); err != nil {
 					l.Printf("error processing observer: %s", err.Error())
 				}
